@@ -170,7 +170,7 @@ def mutating_calls_outside(trace_path, root):
     out = []
     if not os.path.exists(trace_path):
         return ["(no trace was written)"]
-    broot = root.rstrip("/") + "/"
+    broot = os.path.realpath(root).rstrip("/") + "/"
     for line in open(trace_path, errors="replace"):
         m = re.match(r"\s*\d+\s+(\w+)\((.*)\)\s+=\s+(-?\d+)", line)
         if not m or int(m.group(3)) < 0:
@@ -184,7 +184,11 @@ def mutating_calls_outside(trace_path, root):
         elif call == "utimensat" and not paths:
             continue
         for pth in paths:
-            if pth.startswith("/") and not pth.startswith(broot) and pth not in ("/dev/null", "/dev/tty"):
+            if not pth.startswith("/"):
+                continue
+            comps = [c for c in pth.split("/") if c and c != "."]        # the arguments may be spelled with '//' or '/./'
+            norm = os.path.realpath("/" + "/".join(comps))
+            if not (norm + "/").startswith(broot) and norm not in ("/dev/null", "/dev/tty"):
                 out.append("%s %s" % (call, pth))
     return out
 
